@@ -234,14 +234,21 @@ func (c *c17Ctx) c17MasterRound(s *c17Seq, round int, rnd *rand.Rand) bool {
 	}
 	kill, killAfter := "", 0
 	pick := rnd.IntN(10)
-	graceful := rnd.IntN(7) == 0
+	graceful := rnd.IntN(5) == 0
 	switch {
 	case graceful:
 		// graceful Engine.Close at a PRNG-chosen moment with writers in flight and a slowed-down
 		// binlog writer; the child dies right after Close returned
 		kill = "graceful_close"
-		env = append(env, fmt.Sprintf("VERIF_C17_CLOSE_AFTER=%d", 1+rnd.IntN(40)),
-			fmt.Sprintf("VERIF_DELAY=fsbinlog.loop.after_write:%d,fsbinlog.loop.after_fsync:%d,fsbinlog.loop.before_engine_commit:%d", 2000+rnd.IntN(40000), 2000+rnd.IntN(40000), 2000+rnd.IntN(40000)))
+		trig := fmt.Sprintf("VERIF_C17_CLOSE_AT_WRITE=%d", 2+rnd.IntN(5))
+		if rnd.IntN(4) == 0 {
+			trig = fmt.Sprintf("VERIF_C17_CLOSE_AFTER=%d", 1+rnd.IntN(20))
+		}
+		env = append(env, trig, fmt.Sprintf("VERIF_C17_CLOSE_LAG_US=%d", rnd.IntN(4000)),
+			fmt.Sprintf("VERIF_DELAY=fsbinlog.loop.after_write:%d,fsbinlog.loop.after_fsync:%d,fsbinlog.loop.before_engine_commit:%d,sqlite.do.after_binlog_append:%d", 80000+rnd.IntN(170000), 5000+rnd.IntN(55000), 5000+rnd.IntN(55000), 300+rnd.IntN(1500)),
+			// the periodic COMMIT of wait mode holds the connection mutex while it waits for the binlog;
+			// with a slowed-down binlog it would serialise everything, so it is made rare here
+			"VERIF_C17_COMMIT_MS=5000")
 	case pick < 2:
 		killAfter = 1 + rnd.IntN(quota)
 		kill = "random_instant"
@@ -321,6 +328,8 @@ func (c *c17Ctx) c17MasterRound(s *c17Seq, round int, rnd *rand.Rand) bool {
 	}
 	if ch.closed {
 		c.w.Count("graceful_close.children", 1)
+		c.w.Count("graceful_close.mode_"+s.mode, 1)
+		c.w.Count("graceful_close.writes_in_flight_or_refused", int64(len(ch.calls)-len(ch.acks)-len(ch.failed)))
 		if ch.closedErr != "<nil>" {
 			c.w.Count("graceful_close.close_error", 1)
 		}
